@@ -110,5 +110,19 @@ mutant "harmless: window test written o <= 0 || o > WindowSize" harmless hp.go '
 mutant "harmless: k = k + b in the extension loop"            harmless hp.go 's/(func \(s \*hashParser\) Parse.*?)\t\t\t\tk \+= b\n\t\t\t\tif b < 8/${1}\t\t\t\tk = k + b\n\t\t\t\tif b < 8/s'
 mutant "harmless: re-index bound written b = litIndex; if b > inputEnd" harmless hp.go 's/(func \(s \*hashParser\) Parse.*?)\t\tif litIndex > inputEnd \{\n\t\t\tb = inputEnd\n\t\t\} else \{\n\t\t\tb = litIndex\n\t\t\}\n/${1}\t\tb = litIndex\n\t\tif b > inputEnd {\n\t\t\tb = inputEnd\n\t\t}\n/s'
 
+
+# --- second robustness round (notes/robust2.md): the new normalisations of tools/extract/code_desugar.go and the
+#     element-write footprint of code_parse.go — harmless uses must be proved, wrong uses must be killed / refused
+FT_SWITCH='s/func getLE64\(p \[\]byte\) uint64 \{.*?\n\}\n/func getLE64(p []byte) uint64 {\n\tn := len(p)\n\tif n >= 8 {\n\t\treturn _getLE64(p)\n\t}\n\tif n >= 4 {\n\t\tx := uint64(_getLE32(p))\n\t\tswitch n {\n\t\tcase 7:\n\t\t\tx |= uint64(p[6]) << 48\n\t\t\tfallthrough\n\t\tcase 6:\n\t\t\tx |= uint64(p[5]) << 40\n\t\t\tfallthrough\n\t\tcase 5:\n\t\t\tx |= uint64(p[4]) << 32\n\t\t}\n\t\treturn x\n\t}\n\tswitch n {\n\tcase 3:\n\t\treturn uint64(p[0]) | uint64(p[1])<<8 | uint64(p[2])<<16\n\tcase 2:\n\t\treturn uint64(p[0]) | uint64(p[1])<<8\n\tcase 1:\n\t\treturn uint64(p[0])\n\t}\n\treturn 0\n}\n/s'
+mutant "harmless: getLE64 as a switch with fallthrough"       harmless bytes.go "$FT_SWITCH"
+mutant "getLE64 fallthrough switch: one fallthrough missing"  proof bytes.go "$FT_SWITCH; s/<< 48\n\t\t\tfallthrough\n/<< 48\n/"
+mutant "getLE64 fallthrough switch: case 6 ORs byte 4 twice"  proof bytes.go "$FT_SWITCH; s/x \|= uint64\(p\[5\]\) << 40/x |= uint64(p[4]) << 40/"
+mutant "harmless: processSegment clamps b by a swapping tuple assignment" harmless hash.go 's/(func \(f \*hashDictionary\) processSegment.*?)\tif c < b \{\n\t\tb = c\n\t\}/${1}\tif c < b {\n\t\tc, b = b, c\n\t}/s'
+mutant "processSegment: tuple assignment c, b = b, b (no swap)" proof hash.go 's/(func \(f \*hashDictionary\) processSegment.*?)\tif c < b \{\n\t\tb = c\n\t\}/${1}\tif c < b {\n\t\tc, b = b, b\n\t}/s'
+mutant "harmless: processSegment with table, mask, shift hoisted into locals" harmless hash.go 's/(func \(f \*hashDictionary\) processSegment.*?)(\tfor i := a; i < b; i\+\+ \{\n)\t\tx := _getLE64\(_p\[i:\]\) & f\.mask\n\t\tf\.table\[hashValue\(x, f\.shift\)\]/${1}\ttable, mask, shift := f.table, f.mask, f.shift\n${2}\t\tx := _getLE64(_p[i:]) \& mask\n\t\ttable[hashValue(x, shift)]/s'
+mutant "alias: processSegment writes through a RE-SLICED copy of the table" extract hash.go 's/(func \(f \*hashDictionary\) processSegment.*?)(\tfor i := a; i < b; i\+\+ \{\n)\t\tx := _getLE64\(_p\[i:\]\) & f\.mask\n\t\tf\.table\[hashValue\(x, f\.shift\)\]/${1}\ttable := f.table[0:]\n${2}\t\tx := _getLE64(_p[i:]) \& f.mask\n\t\ttable[hashValue(x, f.shift)]/s'
+mutant "alias: a helper method that writes Data is called while p is live" extract hp.go 's/(func \(s \*hashParser\) Parse.*?)(\t\ti = litIndex - 1\n)/${1}\t\ts.hashDictionary.poke()\n${2}/s; s/\z/\nfunc (f *hashDictionary) poke() { f.Data[0] = 1 }\n/'
+mutant "a helper method that writes table[0] is called in the loop (accepted by the footprint rule; semantic change)" proof hp.go 's/(func \(s \*hashParser\) Parse.*?)(\t\ti = litIndex - 1\n)/${1}\t\ts.hashDictionary.poke()\n${2}/s; s/\z/\nfunc (f *hashDictionary) poke() { f.table[0] = hashEntry{} }\n/'
+
 echo "== summary: $good of $total mutants behaved as expected, $bad did not"
 [ $bad -eq 0 ]
